@@ -297,5 +297,22 @@ PROPS["C05"] = dict(
     ],
 )
 
+PROPS["C20"] = dict(
+    title="URL routing is deterministic, whole-string, and consistent with URL generation",
+    level="model_checking",
+    trusted_base=COMMON_TB + ["PCRE is a library: pcre_compile/pcre_fullinfo/pcre_exec are recording stubs with arbitrary (oracle-table) verdicts; that PCRE honours (?:p)\\z with PCRE_ANCHORED is assumed",
+                              "replay of counterexamples on the gcc build of the translated code + stubs"],
+    assumptions=["patterns of length <= 3 (arbitrary non-NUL bytes) for the anchoring contract"],
+    outside="url_dispatcher first-match order (shared_ptr/std::function/vector of options: out of memory at 2 options), url_mapper round trip, applications_pool mount order, the regex language itself",
+    obligations=[
+        dict(id="C20.a", harness="C20_regex.cpp", entry="h_c20a_anchoring", ctors=False, cut=[STRING_REALLOC], nvec=0, replay="generated",
+             desc="booster::regex::assign compiles p and exactly (?:p)\\z with the same flags; match() asks PCRE about the anchored form with PCRE_ANCHORED over the whole range; match(marks) additionally requires ovector[0]==0 and ovector[1]==length and copies the ovector pairs",
+             tiers=T(quick=dict(split=[[0, 1, 3]], unwind=44, timeout=900, bounds="every pattern of length 0,1,3; PCRE verdict, ovector, capture count 0..2 arbitrary; subject length 0..3"))),
+        dict(id="C20.c", harness="C20_regex.cpp", entry="h_c20c_mount_point", ctors=False, cut=[STRING_REALLOC], nvec=0, replay="generated",
+             desc="mount_point::match: success <=> every configured pattern (host / script name / path info) matches its whole string; returns the selected string",
+             tiers=T(quick=dict(split=[[0, 1, 2, 4, 7], [0, 1]], unwind=44, timeout=900, bounds="pattern presence masks {0,1,2,4,7} x selection {script name, path info}; match oracle arbitrary; group 0"))),
+    ],
+)
+
 # properties for which no obligation can be built with this technique (reason required)
 NOT_APPLICABLE = {}
